@@ -6,7 +6,7 @@ export GOFLAGS=-mod=mod GOPROXY=off
 mkdir -p bin gen evidence replays
 (cd extract && (GOTOOLCHAIN=local go build -o ../bin/extract . || go build -o ../bin/extract .))
 ./bin/extract -repo "${VERIF_REPO:-/repo}" -lean lean/PkVerif/Gen/Facts.lean -json gen/facts.json
-(cd lean && lake build)
+(cd lean && lake build PkVerif $(ls PkVerif/Props/*.lean | sed "s/\.lean$//; s/\//./g") $(ls Driver/*.lean | sed "s/.*\/\(C[0-9]*\).lean/pkmodel-\L\1/"))
 cp "${VERIF_REPO:-/repo}/go.sum" harness/go.sum
-(cd harness && env -u GOTOOLCHAIN -u GOSUMDB go build -tags verif -o ../bin/pkharness ./cmd/pkharness)
+(cd harness && for d in cmd/pkh-*; do env -u GOTOOLCHAIN -u GOSUMDB go build -tags verif -o ../bin/$(basename $d) ./$d; done)
 echo "setup ok"
